@@ -198,7 +198,7 @@ theorem deliver_status : ∀ (d : Dec) (n : Nat) (h : Heap) (e : EventOf Ref), V
         intro o ho
         subst ho
         simp only [applyStep, taggerOut, tagged, valOf, snapEvent]
-        split <;> simp_all
+        rfl
       cases hout : taggerOut h e a dd with
       | none =>
         simp only []
@@ -487,8 +487,8 @@ def finalHeap (i : Input) : Heap := (runCalls i.tree 0 { caller := i.objs, fresh
 
 /-- **C11 (forward)**: the leaves of the tree correspond one-to-one, left to right, to the logs; the log of every
 sink is exactly the call sequence — each `startTestRun` / `stopTestRun` / `status` once, in order — and each status
-it holds is `pathTransform` of the caller's event along *its own* path only: tags `(t ∪ add) \ discard` (a set, possibly
-empty; `None` only when the event supplied `None` and nothing is added) per tagger, timestamp filled iff missing per timestamper, route code prefixed per `StreamToQueue`, every other
+it holds is `pathTransform` of the caller's event along *its own* path only: tags `(t ∪ add) \ discard` (`None` when
+empty) per tagger, timestamp filled iff missing per timestamper, route code prefixed per `StreamToQueue`, every other
 field unchanged.  Siblings and other branches do not occur in the statement: what one target receives is independent
 of them. -/
 theorem C11_forward (i : Input) :
@@ -602,9 +602,9 @@ theorem norm_isEmpty (xs : List Nat) : (norm xs).isEmpty = xs.isEmpty := by
     | cons _ _ => rfl
 
 /-- **when a tagger hands on `None` is the code's**: the whole `test_tags` value `StreamTagger.status` forwards - the set
-arithmetic AND the rule `if supplied is None and not test_tags: test_tags = None` - translated from the source, is the
-model's `taggerOut` (up to the canonical order of a set's elements): `None` only for an event without tag information that
-gets nothing added, otherwise a set, possibly empty -/
+arithmetic AND the rule `test_tags or None` - translated from the source, is the model's `taggerOut` (up to the canonical
+order of a set's elements): `None` exactly when the resulting set is empty (behaviour pinned by
+`TestStreamTagger.test_discarding`) -/
 theorem C11_src_tagger_none (h : Heap) (e : EventOf Ref) (add discard : List Nat) :
     taggerOut h e add discard = (TTV.Generated.C11.taggerOut_src (deref h e.tags) add discard).map norm := by
   simp only [taggerOut, TTV.Generated.C11.taggerOut_src, C11_src_tagger, TTV.Generated.C11.taggerTags_src, norm_isEmpty]
